@@ -124,7 +124,7 @@ PROPS = {
     "C16": {
         "module": "GtfsVerif.Props.C16",
         "trusted_base": RT_TB,
-        "partial": ["transparency is proved per entity (pre-pass and track reporting leave plain entities alone); the message-level statement follows because the merge loop is the same function for both extensions and is checked by the oracle (parse with vs without extension on the plain entities)",
+        "partial": ["transparency: C16_transparent_message (a message of plain entities parses exactly as with no extension) and C16_transparent_in_any_feed (in a mixed feed each plain entity reaches the merge loop unchanged and contributes to any state what it contributes without the extension); what the *result* of a mixed feed looks like entity by entity is checked by the oracle, which parses each feed with and without the extension",
                     "trip ids containing invalid UTF-8 in the two wildcard positions are outside the matcher model"],
         "assumptions": [],
     },
@@ -237,7 +237,7 @@ MANIFEST_TEXT = {
         "technique": "Lean 4 proof (closed form of the selector fold) + exhaustive presence-pattern correspondence",
     },
     "C16": {
-        "text": "Theorems: direction map (NORTH/absent to False, SOUTH to True), assigned trip gets the vehicle descriptor {id: train id}, track rule, the start time for every origin time below 600000 by arithmetic (n*6/10 seconds, accepted by the start-time parser), the stale filter as an iff, the M-train swap is an involution that touches only N/S at the listed stations (regenerated list), plain entities are untouched by the pre-pass. Correspondence and oracle over mixed NYCT/plain feeds, all four option combinations, boundary first-stop times.",
+        "text": "Theorems: direction map (NORTH/absent to False, SOUTH to True), assigned trip gets the vehicle descriptor {id: train id}, track rule, the start time for every origin time below 600000 by arithmetic (n*6/10 seconds, accepted by the start-time parser), the stale filter as an iff, the M-train swap is an involution that touches only N/S at the listed stations (regenerated list), plain entities are untouched by the pre-pass and contribute to any state of the merge loop what they contribute without the extension; a message of plain entities parses exactly as with no extension. Correspondence and oracle over mixed NYCT/plain feeds, all four option combinations, boundary first-stop times.",
         "note": "Trusted: Lean kernel, harness, hand-written matcher for TripIDRegex (text pinned, differentially validated).",
         "technique": "Lean 4 proof (arithmetic on %02d rendering, decision logic) + differential correspondence",
     },
